@@ -179,6 +179,8 @@ fn sub_src(e: &E, ind: usize) -> String {
 
 pub fn expr_src(e: &E, ind: usize) -> String {
     match e {
+        // regex literals may contain backslashes (`r'\d+'`): printed by the call generator's printer
+        E::Lit(v @ TV::Regex(_)) => super::call::lit(v).unwrap_or_else(|| "null".to_string()),
         E::Lit(v) => vrlx::literal(v).unwrap_or_else(|| "null".to_string()),
         E::Arr(items) => format!("[{}]", items.iter().map(|x| sub_src(x, ind)).collect::<Vec<_>>().join(", ")),
         E::Obj(members) => format!(
